@@ -215,7 +215,7 @@ def item_eval(item):
 def items(tier):
     cfgs = configs(tier)
     markets = ['m0', 'late', 'hole', 'gap', 'blankstart', 'zerovol', 'twosrc'] if tier == 'quick' else list(MARKETS)
-    rewrites = ['remove', 'x3', 'reverse', 'blank'] if tier == 'quick' else REWRITES
+    rewrites = ['remove', 'reverse', 'blank'] if tier == 'quick' else REWRITES
     cuts = [c.isoformat() for c in CUTS]
     size = 10 if tier == 'quick' else 25
     out = []
